@@ -310,6 +310,14 @@ def gen_zone_session(rng, z, nprobe=40, do_find=True, do_findn=False, lookups=Tr
                 yield {"op": "localtime", "a": {"u": W(u), "ns": rng.choice([0, 999999999])}}
             if do_find and rng.random() < 0.25:
                 yield {"op": "roundtrip", "a": {"u": W(u), "ns": rng.choice([0, 7])}}
+            if rng.random() < 0.12 and MINT + 2**32 < u < MAXT - 2**32:
+                # a UTC date-time built from fields, with second 60 where the instant is the first second of a minute, projected
+                # into the zone: the result is the zone's reading of the instant the fields denote (never a copy of the fields)
+                f = fields_of_local(u if u % 60 else u - 1, rng.choice([0, 3]))
+                if u % 60 == 0:
+                    f["s"] = 60
+                f["via"] = "utcnew"
+                yield {"op": "project", "a": f}
             if rng.random() < 0.3 and abs(u) < 2**62:
                 yield {"op": "fromnanos", "a": {"N": W(u * 10**9 + rng.choice([0, 1, 500000000, 999999999])), "via": "zone", "type": {"off": 0, "dst": 0, "des": []}}}
         if do_find and MINT + 2**32 < u < MAXT - 2**32:
@@ -731,6 +739,41 @@ def gen_rule_not_type0_zones(rng, n, findn=False):
                 yield {"op": "find", "a": f}
 
 
+def gen_rule_types_not_listed(rng, n, findn=False):
+    """zones whose LISTED types all share one offset while the trailing daylight-saving rule brings another one: the rule's
+    halves need not be in the type list (no table: any list; with a table only the last transition's type must match the rule)"""
+    for i in range(n):
+        r = corpus_rule(rng.randrange(1000)) if i % 2 else rand_rule(rng)
+        shape = i % 3
+        if shape == 0:
+            ty = [{"off": r["std"]["off"], "dst": 0, "des": B("LMT")}]
+            tr = []
+        elif shape == 1:
+            ty = [{"off": r["dst"]["off"], "dst": rng.randint(0, 1), "des": B("QQQ")}, {"off": r["dst"]["off"], "dst": 1, "des": B("RRR")}]
+            tr = []
+        else:
+            # a table that ends on the rule's standard half, at an instant of standard time
+            y = rng.randint(1975, 2060)
+            s0, e0, s1 = rule_S(r, y), rule_E(r, y), rule_S(r, y + 1)
+            t = (e0 + s1) // 2 if e0 <= s1 else (rule_E(r, y - 1) + s0) // 2
+            ty = [dict(r["std"]), {"off": r["std"]["off"], "dst": 0, "des": B("OLD")}]
+            tr = [[t - 10**7, 1], [t, 0]]
+        yield zone_event({"tr": tr, "ty": ty, "lp": [], "rule": r})
+        y = rng.randint(1975, 2300)
+        offs = (r["std"]["off"], r["dst"]["off"])
+        a, b = min(offs), max(offs)
+        for T in (rule_S(r, y), rule_E(r, y)):
+            yield {"op": "lookup", "a": {"u": W(T), "via": "ref"}}
+            for L in (T + a - 1, T + a, T + b - 1, T + b, T + (a + b) // 2, T + b + 86400 * 30):
+                f = fields_of_local(L, 0)
+                if findn:
+                    f["n"] = rng.randint(0, 3)
+                    yield {"op": "findn", "a": f}
+                else:
+                    yield {"op": "find", "a": f}
+            yield {"op": "roundtrip", "a": {"u": W(T + rng.choice([-1, 0, 1, 86400 * 20])), "ns": 0}}
+
+
 def gen_year_crossing_zones(rng, n, findn=False):
     """rules whose yearly instants are displaced across New Year by day times of several days: the instant, looked up and
     searched back, around New Year (every half day for 8 days each side) and around each start/end of four years"""
@@ -752,6 +795,7 @@ def gen_find_zones(rng, nzones, findn=False):
     yield from gen_year_crossing_zones(rng, max(10, nzones // 12), findn=findn)
     yield from gen_leap_in_gap_zones(rng, max(6, nzones // 15), findn=findn)
     yield from gen_rule_not_type0_zones(rng, max(6, nzones // 15), findn=findn)
+    yield from gen_rule_types_not_listed(rng, max(9, nzones // 12), findn=findn)
     for i in range(max(6, nzones // 10)):
         yield from gen_rule_zone_session(rng, new_year_rule(rng), with_table=(i % 3 == 2), do_find=True, do_findn=findn, nprobe=20)
     for _ in range(max(3, nzones // 25)):
@@ -834,9 +878,18 @@ def gen_nanos_zone(rng, nz):
 
 def gen_ns_validation(rng, n):
     """nanosecond arguments around 1e9 wherever fields are validated (C16)"""
-    z = gen_table_zone(rng, nmax=4)
-    yield zone_event(z)
+    # every shape of zone the search treats in its own branch: no table and no rule, a table (with and without a rule), a rule alone
+    r = corpus_rule(rng.randrange(1000))
+    tz = gen_table_zone(rng, nmax=4)
+    while not tz["tr"]:
+        tz = gen_table_zone(rng, nmax=4)
+    shapes = [{"tr": [], "ty": [rand_type(rng)], "lp": [], "rule": {"k": "none"}}, tz,
+              {"tr": [], "ty": [dict(r["std"]), dict(r["dst"])], "lp": [], "rule": r},
+              {"tr": [[rule_S(r, 1990), 1]], "ty": [dict(r["std"]), dict(r["dst"])], "lp": [], "rule": r},
+              {"tr": [[0, 0]], "ty": [rand_type(rng)], "lp": [], "rule": {"k": "none"}}]
     for i in range(n):
+        if i % max(1, n // len(shapes)) == 0 and i // max(1, n // len(shapes)) < len(shapes):
+            yield zone_event(shapes[i // max(1, n // len(shapes))])
         f = rand_fields(rng, 1.0)
         f["ns"] = rng.choice([999999999, 1000000000, 1000000001, 2147483647, 0])
         k = i % 5
@@ -1573,7 +1626,7 @@ def gen_corpus_mutations(rng, files, per_file):
 
 
 # ---- C20 ----
-def synth_tzif(rng):
+def synth_tzif(rng, many_types=False):
     """A well-formed TZif file built field by field, aimed at the shapes the corpus does not have: designation tables longer
     than 256 bytes with names ending beyond byte 255, shared suffixes, up to 200 types, v2+/v3 files whose 32-bit block is
     size-consistent but would not be a valid zone of its own (it must be ignored), all indicator combinations, leap tables."""
@@ -1594,6 +1647,8 @@ def synth_tzif(rng):
         pos += len(n) + 1
     late = [i for i in starts if any(i <= 255 < i + 3 + d for d in range(5)) or i >= 248]
     ntypes = rng.choice([1, 2, 3, 5, 30, 200]) if len(starts) > 3 else rng.randint(1, 3)
+    if many_types:
+        ntypes = rng.choice([256, 257, 258, 300, 513])       # RFC 8536 does not bound typecnt; only the first 256 can be referred to
     types = []
     for _ in range(ntypes):
         idx = rng.choice(late) if late and rng.random() < 0.3 else rng.choice(starts)
@@ -1604,7 +1659,7 @@ def synth_tzif(rng):
     t64 = times(-2**40, 2**40, ntr) if rng.random() < 0.7 else times(-2**31, 2**31 - 1, ntr)
     if ntr >= 2 and ver != 0 and rng.random() < 0.15:
         t64[0] = rng.choice([-2**63, -2**63 + 1, -2**62])            # the first of several transitions may sit at the bottom of the range
-    idxs = [rng.randrange(ntypes) for _ in range(ntr)]
+    idxs = [rng.randrange(min(ntypes, 256)) for _ in range(ntr)]
     leaps = []
     if rng.random() < 0.3:
         t, c = rng.randint(0, 10**8), 0
@@ -1647,6 +1702,23 @@ def synth_tzif(rng):
 
 
 def gen_synth_files(rng, n):
+    # more local time types than a transition can refer to: every record is part of the zone and every record is validated
+    for k in range(max(4, n // 30)):
+        data = synth_tzif(rng, many_types=True)
+        yield {"op": "tzif", "a": {"bytes": list(data)}, "g": 1}
+        # ... the DST flag of the LAST record set to 2 (v1: in the only block; v2+: in both blocks): not a TZif file any more
+        b = bytearray(data)
+        pos = 0
+        while True:
+            cnt = struct.unpack(">6I", b[pos + 20:pos + 44])
+            isut, isstd, leap, timecnt, typecnt, charcnt = cnt
+            tsz = 4 if pos == 0 else 8
+            tt = pos + 44 + timecnt * tsz + timecnt
+            b[tt + 6 * (typecnt - 1) + 4] = 2
+            pos = tt + 6 * typecnt + charcnt + leap * (tsz + 4) + isstd + isut
+            if b[4] == 0 or tsz == 8:
+                break
+        yield {"op": "tzif", "a": {"bytes": list(bytes(b))}, "g": 1}
     for _ in range(n):
         data = synth_tzif(rng)
         yield {"op": "tzif", "a": {"bytes": list(data)}, "g": 1}
@@ -1810,6 +1882,22 @@ def gen_hostile_strings(rng, n):
         for via in ("v2", "v3"):
             yield {"op": "tzstring", "a": {"s": list(s), "via": via}}
     yield from gen_hostile_rules(rng, max(60, n // 40))
+
+
+def gen_hostile_tz_values(rng):
+    """TZ values (text) that no file answers: long names whose multi-byte characters straddle every byte offset up to 80 (a fixed
+    byte-offset slice of the text falls inside a character), control characters, very long values - through the in-memory
+    reader, the default settings and the forced-lookup form"""
+    for ch in ("\u00e9", "\u20ac", "\U0001f30d"):
+        for k in range(0, 5):
+            for total in (8, 33, 70, 300):
+                txt = "a" * k + ch * total
+                for pre in ("", ":"):
+                    yield {"op": "resolve", "a": {"s": B(pre + txt), "dirs": [B("/zi"), B("rel")], "vfs": [], "via": "posix"}, "g": 1}
+                yield {"op": "posixtz", "a": {"s": B(txt)}}
+    for txt in ["x" * 5000, "Zone/" * 900, "\x01\x02\x7f", "A\u0301" * 50, "EST5EDT," + "\u00e9" * 40, "<" + "\u00e9" * 3 + ">5"]:
+        yield {"op": "resolve", "a": {"s": B(txt), "dirs": [B("/zi")], "vfs": [], "via": "posix"}, "g": 1}
+        yield {"op": "posixtz", "a": {"s": B(txt)}}
 
 
 def gen_hostile_numbers(rng, n):
